@@ -18,7 +18,7 @@ import (
 // Op is one access of a critical section.
 type Op struct {
 	V int    `json:"v"`           // shared variable 0 (x), 1 (y) or 2 (t, function-valued: [1 |-> 100, 2 |-> 200])
-	K string `json:"k"`           // "R" | "W" | "A" (await FALSE on the first attempt of the section: the section aborts here once) | "F" (an assertion fails here: the run of this context ends with that error)
+	K string `json:"k"`           // "R" | "W" | "A" (await FALSE on the first attempt of the section: the section aborts here once) | "F" (an assertion fails here: the run of this context ends with that error) | "P" (the body panics here, as a TLA+ type error in generated code would; the context runs under a recover wrapper as resources.Monitor.RunArchetype does)
 	F string `json:"f,omitempty"` // value written: "tag" unique value | "inc"/"dec" last value read of the location +-1 | "copy" last value read of the other variable
 	I int    `json:"i,omitempty"` // V = t only: 0 = the whole variable, k>0 = element t[k] accessed through Index()
 }
@@ -85,6 +85,8 @@ func (o Op) String() string {
 		return "await-false-once"
 	case "F":
 		return "assertion-fails"
+	case "P":
+		return "body-panics"
 	case "R":
 		return "R" + n
 	}
@@ -120,12 +122,26 @@ func xfer(a, b int) Section {
 // shapes over the function-valued variable t (indexed access through Index(), as raftkvs does with nextIndex[i][j])
 var awaitFalse = Op{K: "A"}
 var assertFails = Op{K: "F"}
+var bodyPanics = Op{K: "P"}
+
+const bodyPanicMsg = "verif: panic raised in a section body"
+
+func panicsAt(sc Script) bool {
+	for _, sec := range sc {
+		for _, o := range sec {
+			if o.K == "P" {
+				return true
+			}
+		}
+	}
+	return false
+}
 
 // fatalAt returns the index of the first section of the script that ends the run by an assertion failure (-1: none).
 func fatalAt(sc Script) int {
 	for i, sec := range sc {
 		for _, o := range sec {
-			if o.K == "F" {
+			if o.K == "F" || o.K == "P" {
 				return i
 			}
 		}
@@ -154,7 +170,7 @@ func usesVars(scripts []Script) int {
 	for _, s := range scripts {
 		for _, sec := range s {
 			for _, o := range sec {
-				if o.K != "A" && o.K != "F" && o.V+1 > n {
+				if o.K != "A" && o.K != "F" && o.K != "P" && o.V+1 > n {
 					n = o.V + 1
 				}
 			}
@@ -167,11 +183,12 @@ func usesVars(scripts []Script) int {
 // archetypes
 
 type ctxState struct {
-	idx     int
-	name    string
-	gate    *bubble.Gate
-	runErr  error
-	runDone bool
+	idx      int
+	name     string
+	gate     *bubble.Gate
+	runErr   error
+	runDone  bool
+	runPanic string // the panic that left Run, recovered by the wrapper around it
 }
 
 // makeArchetype builds a tiny MPCal archetype whose critical sections follow the script.
@@ -198,6 +215,9 @@ func makeArchetype(name string, idx0 int, script Script, attempt func() int) dis
 						return distsys.ErrCriticalSectionAborted // await FALSE
 					}
 					continue
+				}
+				if o.K == "P" {
+					panic(bodyPanicMsg)
 				}
 				if o.K == "F" {
 					return fmt.Errorf("%w: assertion of the harness, while the section holds its shared variables", distsys.ErrAssertionFailed)
